@@ -14,7 +14,17 @@ type G struct {
 	NoTabs     bool
 	// BackslashR: `\r` is among the backslash sequences that are ordinary text (RFC 6020 6.1.3 substitutes \n \t \" \\ only)
 	BackslashR bool
+	// Abut: a comment may stand directly behind an unquoted argument (RFC 6020 6.1.3: an unquoted string holds no
+	// comment opener, so the comment ends it); the statement is then marked Abut
+	Abut bool
 }
+
+// StartsWithComment tells whether the trivia begins with a comment opener.
+func StartsWithComment(t string) bool { return strings.HasPrefix(t, "/*") || strings.HasPrefix(t, "//") }
+
+// Abuts tells whether the trivia t2 can stand directly behind the unquoted argument raw: it begins with a comment, and
+// the last character of the argument does not form a comment opener of its own with the first character of the trivia
+func Abuts(raw, t2 string) bool { return StartsWithComment(t2) && !strings.HasSuffix(raw, "/") }
 
 func (g *G) Pick(n int, l string) int { return rapid.IntRange(0, n-1).Draw(g.T, l) }
 
@@ -35,7 +45,7 @@ func (g *G) Trivia(needBlankFirst bool, maxElems int) string {
 		if g.NoTabs && k == 2 {
 			k = 0
 		}
-		if i == 0 && needBlankFirst && k >= 7 {
+		if i == 0 && needBlankFirst && k >= 7 && !(g.Abut && g.Pick(2, "abut") == 1) {
 			b.WriteByte(' ')
 		}
 		switch k {
@@ -247,6 +257,7 @@ func (g *G) ExtStmt(depth, maxKids int) *Stmt {
 	}
 	last := len(s.Pieces) == 0 || s.Pieces[len(s.Pieces)-1].Q == "u"
 	s.T2 = g.Trivia(last, 2)
+	s.Abut = last && len(s.Pieces) > 0 && Abuts(s.Pieces[len(s.Pieces)-1].Raw, s.T2)
 	if depth > 0 {
 		nk := g.Pick(maxKids+1, "nkids")
 		for i := 0; i < nk; i++ {
